@@ -344,7 +344,7 @@ var fixUps = ev.Register(&ev.P[fixCase]{
 		for _, a := range c.Actions {
 			ls = append(ls, "action:"+a.Kind)
 			for _, s := range a.Segs {
-				if a.Kind == "add" && s[:8] < "20251011" {
+				if a.Kind == "add" && s[:8] < lastShippedDay() {
 					ls, nt = append(ls, "addOutOfOrder"), true
 				}
 				if a.Kind == "replace" || a.Kind == "remove" {
@@ -371,6 +371,22 @@ func workModel(byDay map[string]rec, j int) bool {
 	}
 	w := ref.Weekday(j)
 	return w >= 1 && w <= 5
+}
+
+var lastDayCache string
+
+// lastShippedDay is the day of the shipped table's last record (an added earlier day is "out of order").
+func lastShippedDay() string {
+	if lastDayCache == "" {
+		HolidayUtil.VerifReset()
+		rs, _ := parseTable(HolidayUtil.VerifData())
+		for _, r := range rs {
+			if r.Day > lastDayCache {
+				lastDayCache = r.Day
+			}
+		}
+	}
+	return lastDayCache
 }
 
 func shipped() map[string]rec {
@@ -546,9 +562,9 @@ func genFix(t *rapid.T) fixCase {
 					case 0:
 						y = rapid.IntRange(1990, 2000).Draw(t, "before")
 					case 1:
-						y = rapid.IntRange(2026, 2035).Draw(t, "after")
+						y = atoi(lastShippedDay()[:4]) + rapid.IntRange(1, 10).Draw(t, "after")
 					default:
-						y = rapid.IntRange(2002, 2025).Draw(t, "between")
+						y = rapid.IntRange(2002, atoi(lastShippedDay()[:4])).Draw(t, "between")
 					}
 					dd := fmt.Sprintf("%04d%02d%02d", y, rapid.IntRange(1, 12).Draw(t, "m"), rapid.IntRange(1, 28).Draw(t, "d"))
 					if !has(dd) && !used[dd] {
